@@ -57,7 +57,10 @@ def spell(rng, cs):
     return s
 
 
-def gen_c16(rng):
+def gen_c16(rng, static=False):
+    """`static`: after every population a snapshot of the populated map is taken and probed side by side with
+    the map itself (C17 on trees built by the populator)"""
+    nsnap = 0
     tops, dirs, files = gen_tree(rng)
     lines = []
     for d in dirs:
@@ -135,6 +138,26 @@ def gen_c16(rng):
         lines.append(f'op dump {m}')
         if rng.random() < 0.3:
             lines.append('op links')
+        if static:
+            s = f's{nsnap}'
+            nsnap += 1
+            lines.append(f'op snap {s} {m}')
+            lines.append(f'op sdump {s}')
+            # the keys files and directories take (with and without extension), a few absent ones
+            probes = []
+            for cs in rng.sample(files + dirs, min(len(files + dirs), rng.randint(2, 6))):
+                probes.append(cs)
+                stem = cs[-1].rsplit('.', 1)[0]
+                if stem and stem != cs[-1]:
+                    probes.append(cs[:-1] + [stem])
+            probes.append([rng.choice(tops), 'nope'])
+            for cs in probes:
+                tok = ':' + '/'.join(cs)
+                lines.append(f'op get {m} {tok}')
+                lines.append(f'op sget {s} {tok}')
+                lines.append(f'op chain {m} {tok}')
+                lines.append(f'op {rng.choice(["sgetitem", "sgetattr"])} {s} {tok}')
+            lines.append(f'op sdump {s}')
     names = sorted({cs[-1] for cs in dirs + files})
     for n in names:
         lines.append(f'op splitext :{n}')
